@@ -374,3 +374,80 @@ pub fn h_lines() {
     sym::check("C11/patchfiles", same(&pf, &want_p));
     sym::check("C11/no-rcsid-invented", d.rcsid().is_none());
 }
+
+/// Lines of several files interleaved in every order (canonical spacing): each line lands on its
+/// own file, first-appearance order, checksums in line order, last size wins.
+pub fn h_interleave() {
+    let names: [&[u8]; 4] = [b"d0", b"patch-ab", b"sub/d2", b"d3.tar.gz"];
+    let mut order: Vec<usize> = Vec::new();
+    let mut sums: Vec<Vec<(usize, Vec<u8>)>> = vec![Vec::new(); 4];
+    let mut sizes: Vec<Option<u64>> = vec![None; 4];
+    let mut text: Vec<u8> = b"$NetBSD$\n\n".to_vec();
+    let nl = sym::choose("nlines", sym::bound(4, 5) + 1);
+    let mut i = 0;
+    while i < nl {
+        let w = sym::choose("file", 4);
+        let is_size = sym::choose("size?", 2) == 1;
+        if !order.contains(&w) {
+            order.push(w);
+        }
+        if is_size {
+            text.extend_from_slice(b"Size (");
+            text.extend_from_slice(names[w]);
+            text.extend_from_slice(b") = ");
+            text.push(b'1' + i as u8);
+            text.extend_from_slice(b" bytes\n");
+            sizes[w] = Some(1 + i as u64);
+        } else {
+            let a = (i + w) % 6;
+            text.extend_from_slice(ALGS[a].as_bytes());
+            text.extend_from_slice(b" (");
+            text.extend_from_slice(names[w]);
+            text.extend_from_slice(b") = ");
+            let h = vec![b'a' + i as u8, b'0' + w as u8];
+            text.extend_from_slice(&h);
+            text.push(b'\n');
+            sums[w].push((a, h));
+        }
+        i += 1;
+    }
+    let d = Distinfo::from_bytes(&text);
+    let df = d.distfiles();
+    let pf = d.patchfiles();
+    let mut want_d: Vec<usize> = Vec::new();
+    let mut want_p: Vec<usize> = Vec::new();
+    for w in order.iter() {
+        if spec_is_patch(names[*w]) {
+            want_p.push(*w);
+        } else {
+            want_d.push(*w);
+        }
+    }
+    let same = |got: &Vec<&Entry>, want: &Vec<usize>| -> bool {
+        let mut ok = got.len() == want.len();
+        if ok {
+            for k in 0..want.len() {
+                let w = want[k];
+                ok = ok & (got[k].filename.as_os_str().as_bytes() == names[w]);
+                ok = ok & (got[k].size == sizes[w]);
+                ok = ok & (got[k].checksums.len() == sums[w].len());
+                if got[k].checksums.len() == sums[w].len() {
+                    for j in 0..sums[w].len() {
+                        ok = ok & (got[k].checksums[j].digest == alg_of(sums[w][j].0));
+                        ok = ok & (got[k].checksums[j].hash.as_bytes() == &sums[w][j].1[..]);
+                    }
+                }
+            }
+        }
+        ok
+    };
+    sym::cover("interleaved", order.len() >= 2 && nl >= 3);
+    sym::check("C11/interleaved-distfiles", same(&df, &want_d));
+    sym::check("C11/interleaved-patchfiles", same(&pf, &want_p));
+    // lookups by name agree
+    for w in 0..4usize {
+        let p = PathBuf::from(OsString::from_vec(names[w].to_vec()));
+        let e = if spec_is_patch(names[w]) { d.get_patchfile(&p) } else { d.get_distfile(&p) };
+        sym::check("C11/get-by-name", e.is_some() == order.contains(&w));
+    }
+}
